@@ -54,7 +54,8 @@ def c10(tier):
     pd = props_lalr.dump_dirs(sc, [c["gen"]["dir"] for c in pacc])
     # ---- lexer specifications
     lcs = json.loads(json.dumps(list(lgrams.CURATED_GREEDY) + list(lgrams.CURATED_MODES) + lgrams.ng_cases()[::7] + lgrams.ng_cases()[-8:]
-                                + lgrams.nullable_cases() + lgrams.random_specs(seed() + 10, 30 if quick else 300)
+                                + (lgrams.mode_name_variants() if not quick else lgrams.mode_name_variants()[(seed() % 5)::5])
+                                + lgrams.nullable_cases() + lgrams.ng_whole_rule_cases() + lgrams.random_specs(seed() + 10, 30 if quick else 300)
                                 + lgrams.range_triple_specs(random.Random(seed() + 23), 30 if quick else 400)
                                 + (lgrams.card_nesting_specs() if not quick else lgrams.card_nesting_specs()[(seed() + 1) % 2::2])
                                 + lgrams.keyword_specs(random.Random(seed() + 25), 36 if quick else 150)))
